@@ -167,7 +167,7 @@ def judge(item):
         if c['kind'] != 'set':
             continue
         try:
-            if c['cut']:
+            if c['cut'] and c.get('cut256') != 0:
                 stats['cut'] += 1
                 if c['set'] >= 0:
                     so = c['g'][0][0]
@@ -178,7 +178,7 @@ def judge(item):
             stats['ref'] += 1
             if c['set'] < 0:
                 if i >= 0:
-                    bad.append((k, 'no match reported although no cut happened and pattern %d matches at %d' % (i, st), [i, sp]))
+                    bad.append((k, 'no match reported although no cut is needed within the documented depth and pattern %d matches at %d' % (i, st), [i, sp]))
                 continue
             stats['matched'] += 1
             so, eo = c['g'][0]
@@ -286,6 +286,19 @@ def run(ctx):
             ndis += 1
             res.disagree({'what': 'model and implementation differ (spans, pattern index or depth-cut counter)', 'input': [inp(e)], 'implementation': a[:600], 'model': mans[j][:600]})
     res.extra['model_vs_probe_differences'] = ndis
+    # "within the documented backtracking depth": the depth is a constant of the specification (256).  For
+    # every triple on which the implementation cut a branch, ask the model run with depth 256 whether a
+    # cut is needed at all; if not, the implementation's answer is judged in full (nothing may be missed).
+    withcut = [j for j, d in enumerate(parsed) if d is not None and any(c.get('cut') for c in d['cases'])]
+    if model and withcut:
+        dl = [req(items[j]['flg'], items[j]['nsub'], items[j]['pats'], items[j]['cases'], kind='D') for j in withcut]
+        dans, _ = relib.run_all(model, dl, chunk=50, timeout=600, env=env)
+        for j, a in zip(withcut, dans):
+            if a is None:
+                continue
+            dd = parse_answer(a)
+            for c, c2 in zip(parsed[j]['cases'], dd['cases']):
+                c['cut256'] = c2.get('cut')
     # the reference matcher, in worker processes
     todo = [(j, (dict(e, kind=None), parsed[j])) for j, e in enumerate(items) if parsed[j] is not None and e['trees'] is not None]
     if not ctx.quick:
